@@ -235,6 +235,14 @@ func c25NewFix(clientState *state.Registry, p proto.Protocol) *c25Fix {
 			e.SetForward(true)
 		case "deny":
 			e.SetForward(false)
+		case "edit":
+			// a handler that redacts the body in place: what it leaves in Data() is what
+			// it has seen last, and that is what must be forwarded
+			d := e.Data()
+			for i := range d {
+				d[i] ^= 0x5a
+			}
+			e.SetForward(true)
 		}
 	})
 	return f
@@ -361,7 +369,7 @@ type c25MsgCase struct {
 	Registered bool   `json:"registered"` // channel known to the proxy's ChannelRegistrar
 	Channel    string `json:"channel"`    // used when not registered
 	Body       []byte `json:"body"`
-	Mode       string `json:"mode"` // subscriber: allow | deny | inspect
+	Mode       string `json:"mode"` // subscriber: allow | deny | inspect | edit (changes Data() in place, then allows)
 	PacketID   int    `json:"packetId"`
 }
 
@@ -378,7 +386,7 @@ func c25RunMsg(c c25MsgCase) verifkit.Result {
 		return verifkit.Result{Labels: []string{"invalid-case"}}
 	}
 	switch c.Mode {
-	case "allow", "deny", "inspect":
+	case "allow", "deny", "inspect", "edit":
 	default:
 		return verifkit.Result{Labels: []string{"invalid-case"}}
 	}
@@ -492,13 +500,24 @@ func c25RunMsg(c c25MsgCase) verifkit.Result {
 		}
 		return verifkit.Fail(key("event-data-mismatch"), "PluginMessageEvent.Data() = %x, message body = %x", ev.data, c.Body)
 	}
+	wantFwd := c.Body
+	if c.Mode == "edit" {
+		wantFwd = make([]byte, len(c.Body))
+		for i := range c.Body {
+			wantFwd[i] = c.Body[i] ^ 0x5a
+		}
+		labels = append(labels, "handler-edits-data-in-place")
+	}
 	for _, m := range fwd {
-		if !bytes.Equal(m.data, c.Body) {
+		if !bytes.Equal(m.data, wantFwd) {
+			if c.Mode == "edit" {
+				return verifkit.Fail(key("forwarded-data-differs-from-edited-event-data"), "handler received %x and left %x in Data(); peer received %x", ev.data, wantFwd, m.data)
+			}
 			return verifkit.Fail(key("forwarded-data-differs-from-event"), "handler saw %x, peer received %x", ev.data, m.data)
 		}
 	}
 	switch c.Mode {
-	case "allow":
+	case "allow", "edit":
 		if len(fwd) != 1 {
 			return verifkit.Fail(key("allowed-not-forwarded-once"), "handler allowed the message; peer received it %d times", len(fwd))
 		}
@@ -523,7 +542,7 @@ func c25GenMsg(t *rapid.T) c25MsgCase {
 	c := c25MsgCase{
 		Phase:      rapid.SampledFrom(c25Phases).Draw(t, "phase"),
 		Registered: rapid.IntRange(0, 3).Draw(t, "registered") > 0,
-		Mode:       rapid.SampledFrom([]string{"allow", "deny", "inspect"}).Draw(t, "mode"),
+		Mode:       rapid.SampledFrom([]string{"allow", "deny", "inspect", "edit"}).Draw(t, "mode"),
 		PacketID:   rapid.IntRange(0, 127).Draw(t, "packetId"),
 	}
 	c.Channel = "verif:" + rapid.StringMatching(`[a-z0-9_]{1,10}`).Draw(t, "chan")
@@ -544,6 +563,6 @@ func TestVerif_C25(t *testing.T) {
 		"clientPlaySessionHandler.HandlePacket with minecraft:register / REGISTER payloads of 0..40 channel names (valid, invalid, duplicated, empty, 1023..1025 channels), sent 1..3 times, backend connection writable or failing; subscriber counts PlayerChannelRegisterEvents; oracle: #events == #registrations that reached the backend, payload forwarded unchanged, event channels are names from the payload; non-trivial = at least one registration was forwarded",
 		c25GenReg, c25RunReg)
 	verifkit.Check(t, "C25", "message-event",
-		"one plugin message (body 0..48 B incl. bodies that look like a packet, packet id 0..127, wire payload = id+channel+body) on a channel registered / not registered with the ChannelRegistrar, handled by each of the five session handlers that fire PluginMessageEvent (client play/config/initial-connect, backend play/config); subscriber allows / denies / only inspects; oracle: exactly one event, Data() == body, identifier == channel, what the peer receives == what the handler saw, allow => forwarded once, deny => not forwarded, unregistered => no event and relayed unchanged; non-trivial = registered channel",
+		"one plugin message (body 0..48 B incl. bodies that look like a packet, packet id 0..127, wire payload = id+channel+body) on a channel registered / not registered with the ChannelRegistrar, handled by each of the five session handlers that fire PluginMessageEvent (client play/config/initial-connect, backend play/config); subscriber allows / denies / only inspects / edits Data() in place and allows; oracle: exactly one event, Data() == body, identifier == channel, what the peer receives == what the handler saw, allow => forwarded once, deny => not forwarded, unregistered => no event and relayed unchanged; non-trivial = registered channel",
 		c25GenMsg, c25RunMsg)
 }
